@@ -163,9 +163,9 @@ func generate(run *vx.Run, exec func(string)) {
 	// scrambled output so that neighbouring seeds give unrelated case lists
 	r := vx.NewRand(run.Seed).Fork()
 	// exhaustive lengths: reduced alphabet x all (mode, cmd); core alphabet x all; core alphabet x rotating (mode, cmd)
-	redLen, coreAll, coreRot, rot, nRand, nDeep := 2, 3, 4, 2, 2500, 600
+	redLen, coreAll, coreRot, rot, nRand, nDeep := 2, 3, 4, 2, 5000, 1500
 	if run.Thorough() {
-		redLen, coreAll, coreRot, rot, nRand, nDeep = 3, 4, 5, 1, 30000, 6000
+		redLen, coreAll, coreRot, rot, nRand, nDeep = 3, 4, 5, 1, 40000, 10000
 	}
 	if v := os.Getenv("C10_NRAND"); v != "" {
 		nRand, _ = strconv.Atoi(v)
@@ -185,6 +185,7 @@ func generate(run *vx.Run, exec func(string)) {
 		c.seed = uint64(g.n % 7)
 		c.budget = budgets[(g.n/3)%len(budgets)]
 		c.short = (g.n/5)%2 == 1
+		c.async = (g.n/11)%4 == 0 // every fourth case goes through SendReqAsync
 		g.emit(c, s)
 	}
 	// 1. exhaustive scripts (the last element is the forever answer)
